@@ -85,6 +85,9 @@ func load() (*Loaded, error) {
 	if errs := v.expandConstructs(); len(errs) > 0 {
 		return nil, fmt.Errorf("construct table: %s", strings.Join(errs, "; "))
 	}
+	if errs := v.synthesizeDefaults(); len(errs) > 0 {
+		return nil, fmt.Errorf("default contracts: %s", strings.Join(errs, "; "))
+	}
 	L.v = v
 	return L, nil
 }
